@@ -7,6 +7,9 @@
 #include "Compiler/include/scan.hpp"
 
 #define THEO_MACRO_PASSES 1024
+/* upper bound for the token stream during macro expansion: a macro that
+ * inserts a slot more than once can double the stream with every pass */
+#define THEO_MACRO_MAX_TOKENS (1u << 20)
 
 namespace Theo {
 
